@@ -167,7 +167,13 @@ def xml_unescape(b):
         if (o < 0x20 and ch not in "\t\n\r") or 0x7F <= o <= 0x84 or 0x86 <= o <= 0x9F:
             raise ValueError(f"literal control character U+{o:04X} in an XML 1.1 document")
     t = re.sub("\r\n|\r\x85|\r|\x85|\u2028", "\n", t)
-    return XML_REF.sub(ref, t)
+    t = XML_REF.sub(ref, t)
+    # Char ::= [#x1-#xD7FF] | [#xE000-#xFFFD] | [#x10000-#x10FFFF], literally or by reference
+    for ch in t:
+        o = ord(ch)
+        if o == 0 or 0xD800 <= o <= 0xDFFF or o in (0xFFFE, 0xFFFF):
+            raise ValueError(f"U+{o:04X} is not an XML character")
+    return t
 
 
 def xml_leaves(doc):
@@ -217,7 +223,8 @@ def json_leaves(v, nums, path=(), key=None):
         out = []
         for k in v:
             out += json_leaves(v[k], nums, here, k)
-        if not v and key is not None:
+        if not out and key is not None:
+            # no member (or only empty arrays, which leave nothing): an element without content
             out.append((here, ""))
         return out
     if isinstance(v, list):
@@ -233,7 +240,8 @@ def json_leaves(v, nums, path=(), key=None):
         return [(here, "true" if v else "false")]
     if isinstance(v, (int, float)):
         return [(here, nums.get(num_key(v), repr(v).encode()).decode())]
-    return [(here, v.replace("\0", "\ufffd"))]
+    # U+0000 and the noncharacters U+FFFE / U+FFFF are no XML characters (not even as references): shown as U+FFFD
+    return [(here, v.replace("\0", "\ufffd").replace("\ufffe", "\ufffd").replace("\uffff", "\ufffd"))]
 
 
 
@@ -248,6 +256,44 @@ def canon_rules(xml):
             return m.group(0)
         return m.group(1) + b"".join(sorted(kids)) + m.group(3)
     return re.sub(rb"(<rules>)(.*?)(</rules>)", fix, xml, flags=re.S)
+
+
+def canon_xml(doc):
+    """maps come out of HashMaps in an order that changes from run to run: siblings sorted by (element name, key attribute),
+    stably, so that the items of an array (same name, same key) keep their order; unreadable input is returned as it is"""
+    try:
+        root, stack = [], []
+        cur = root
+        for m in XML_TOKEN.finditer(doc):
+            if m.group(1) is not None:
+                cur = stack.pop()
+            elif m.group(2) is not None:
+                node = [m.group(2), m.group(3) or b"", [], bool(m.group(4))]
+                cur.append(node)
+                if not m.group(4):
+                    stack.append(cur)
+                    cur = node[2]
+            elif m.group(5) is not None:
+                cur.append(m.group(5))
+            else:
+                cur.append(m.group(0))
+        if stack:
+            return doc
+
+        def emit(items):
+            kids = sorted((x for x in items if isinstance(x, list)), key=lambda n: (n[0], n[1]))
+            it = iter(kids)
+            out = []
+            for x in items:
+                if isinstance(x, list):
+                    n = next(it)
+                    out.append(b"<" + n[0] + n[1] + (b"/>" if n[3] else b">" + emit(n[2]) + b"</" + n[0] + b">"))
+                else:
+                    out.append(x)
+            return b"".join(out)
+        return emit(root)
+    except (IndexError, StopIteration):
+        return doc
 
 
 def bson_decode(b):
@@ -310,6 +356,68 @@ def same_values(a, b):
         except OverflowError:
             return float(a) == float(b)
     return a == b
+
+
+class Original:
+    """the protocol-specific response as `as_original()` wraps it: the value inside one single-member object per enum variant
+    (`{"Valve": …}`, `{"GameSpy": {"One": …}}`)"""
+
+    def __init__(self, value):
+        self.value = value
+
+
+def holds(doc, expected):
+    """does the document hold the expected values? (`Original`: inside its variant wrappers, at least one)"""
+    if not isinstance(expected, Original):
+        return same_values(doc, expected)
+    depth = 0
+    while isinstance(doc, dict) and len(doc) == 1 and depth < 3:
+        (k, inner), = doc.items()
+        if not (k[:1].isupper() and isinstance(inner, dict)):
+            break
+        doc, depth = inner, depth + 1
+        if same_values(doc, expected.value):
+            return True
+    return False
+
+
+# other protocol families over loopback UDP: definitions-table protocol -> (family, (argument index, value) selecting the variant)
+UDP_FAMILIES = {
+    "quake1": ("quake", (1, "1")), "quake2": ("quake", (1, "2")), "quake3": ("quake", (1, "3")), "gs1": ("gs1", None), "gs2": ("gs2", None),
+    "gs3": ("gs3", None), "unreal2": ("unreal2", None), "prop:FFOW": ("ffow", None), "prop:Savage2": ("savage2", None),
+    "prop:TheShip": ("theship", None), "prop:JC2M": ("jc2m", None), "prop:Minecraft(Some(Server::Bedrock))": ("mcbedrock", None),
+}
+
+
+def other_family_jobs(rep, tier, seed):
+    """(game id, case id, case, harness line) for one game of every other protocol family that answers over one UDP socket"""
+    tables = json.load(open(os.path.join(vlib.WORK, "games.json")))
+    out = []
+    for proto, (fam, variant) in UDP_FAMILIES.items():
+        if fam not in netprops.FAMILIES:
+            continue
+        gid = next((d["id"] for d in tables["defs"] if d["proto"] == proto), None)
+        if gid is None:
+            continue
+        picked = 0
+        for v in netprops.valid_cases(fam, seed + 19, 60 if tier == "quick" else 400):
+            c = v.case()
+            if v.notwf or not v.want.startswith("OK") or (variant and c.args[variant[0]] != variant[1]):
+                continue
+            if len(c.script) != 1 or c.script[0] == "X" or any(d is None for d in c.script[0]) or any(o.startswith("f=") for o in c.opts):
+                continue  # one socket, no silence, no injected send fault: an exchange the tool can repeat without retries
+            extra = []
+            if fam == "unreal2":
+                # the case names its gathering settings (mutators-and-rules, then players): the same through the tool's flags
+                word = {"s": "skip", "t": "try", "e": "enforce"}
+                g = c.args[netprops.FAMILIES[fam]["gather"]]
+                extra = ["--gather-rules", word[g[0]], "--gather-players", word[g[1]]]
+            out.append((gid, f"{fam}{picked}", c, c.line(f"{fam}{picked}{gid}"), extra))
+            rep.count("family:" + fam)
+            picked += 1
+            if picked >= (1 if tier == "quick" else 6):
+                break
+    return out
 
 
 def inject_rule_keys(case, valid, rnd):
@@ -440,6 +548,13 @@ def hook_documents(rep, tier, seed):
                 cases.append(" ".join([cid, "json-print", "p"] + toks)); meta[cid] = ("eq", doc, desc)
             elif fmt == "xml":
                 cases.append(" ".join([cid, "xml-of"] + toks)); meta[cid] = ("eq", doc, desc)
+                try:
+                    xml_leaves(doc)
+                    if b"&#x" not in doc:
+                        import xml.parsers.expat
+                        xml.parsers.expat.ParserCreate().Parse(doc.replace(b'version="1.1"', b'version="1.0"'), True)
+                except Exception as e:
+                    rep.oracle_failures.append(("cli-xml-not-wellformed", f"{type(e).__name__}: {e}; {doc[:160]!r}", desc, ""))
             else:
                 entry, raw = ("hex-dec", None) if fmt == "bson-hex" else ("b64-dec", None)
                 try:
@@ -553,7 +668,9 @@ def run(rep, tier, seed, replay=None):
                 break
     jobs += big
     # the library's own response for each exchange (in-process, scripted transport)
-    lib_lines = [f"{cid}{gid} valve {c.args[0]} {c.args[1]} {c.args[2]} 0 {c.fmt_script()}" for gid, cid, c in jobs]
+    jobs = [(gid, cid, c, f"{cid}{gid} valve {c.args[0]} {c.args[1]} {c.args[2]} 0 {c.fmt_script()}", []) for gid, cid, c in jobs]
+    jobs += other_family_jobs(rep, tier, seed)
+    lib_lines = [j[3] for j in jobs]
     lib_out, _ = vlib.run_impl(lib_lines, tag="c19")
     xml_cases, xml_meta = [], {}
     dec_cases, dec_meta = [], {}
@@ -563,13 +680,13 @@ def run(rep, tier, seed, replay=None):
         dec_cases.append(" ".join([did] + entry_args))
         dec_meta[did] = (kind, want, desc)
 
-    for (gid, cid, c), line in zip(jobs, lib_lines):
+    for gid, cid, c, line, cli_extra in jobs:
         lib_line = lib_out.get(line.split(" ", 1)[0], "")
         dump = vlib.view_of(lib_line)
         if dump is None:
             continue
         dump_raw = bytes.fromhex(lib_line[lib_line.rfind(" ;; V") + 5:])
-        expected = {"generic": dump["json"], "protocol-specific": {"Valve": dump["self"]}}
+        expected = {"generic": dump["json"], "protocol-specific": {"Valve": dump["self"]} if line.split(" ")[1] == "valve" else Original(dump["self"])}
         srv_deliveries = list(c.script[0])
         # how many datagrams answer each request: read off the library's own transport trace of the same exchange
         bursts = []
@@ -584,13 +701,13 @@ def run(rep, tier, seed, replay=None):
                 srv = Server(srv_deliveries, bursts)
                 srv.start()
                 try:
-                    rc, out, err = run_cli(["query", "-g", gid, "-i", "127.0.0.1", "-p", str(srv.port), "-f", fmt, "-o", mode, "--read-timeout", "2"])
+                    rc, out, err = run_cli(["query", "-g", gid, "-i", "127.0.0.1", "-p", str(srv.port), "-f", fmt, "-o", mode, "--read-timeout", "2"] + cli_extra)
                 finally:
                     srv.close()
                 key = f"{cid}:{gid}:{mode}:{fmt}"
                 rep.seen(key, out[:200].decode("utf-8", "replace"))
                 rep.count("format:" + fmt)
-                case_desc = f"{key} gamedig_cli query -g {gid} -f {fmt} -o {mode}  script={c.fmt_script()[:600]}"
+                case_desc = f"{key} gamedig_cli query -g {gid} -f {fmt} -o {mode} {' '.join(cli_extra)} script={c.fmt_script()[:600]}"
                 if b"panicked at" in err:
                     rep.oracle_failures.append(("cli-panic:" + fmt, f"panic: {err[-300:]!r}", case_desc, ""))
                     continue
@@ -605,7 +722,7 @@ def run(rep, tier, seed, replay=None):
                     if fmt in ("json", "json-pretty"):
                         doc = json.loads(out)
                         json_docs[mode] = out
-                        if not same_values(doc, expected[mode]):
+                        if not holds(doc, expected[mode]):
                             rep.oracle_failures.append((f"cli-json-unfaithful:{mode}", f"JSON differs from the library's response: {out[:200]!r}", case_desc, ""))
                         # the same through the MODEL's reader (the decoder of the C19_cli theorems): what it reads holds the library's
                         # values, and the model's printer gives the document back byte for byte
@@ -622,7 +739,7 @@ def run(rep, tier, seed, replay=None):
                         decode_with_model("dec", ["hex-dec" if fmt == "bson-hex" else "b64-dec", text.hex() or "-"], raw, case_desc)
                         decode_with_model("text", ["hex-enc" if fmt == "bson-hex" else "b64-enc", raw.hex() or "-"], text, case_desc)
                         doc = bson_decode(raw)
-                        if not same_values(doc, expected[mode]):
+                        if not holds(doc, expected[mode]):
                             rep.oracle_failures.append((f"cli-bson-unfaithful:{mode}", f"BSON differs from the library's response", case_desc, ""))
                     elif fmt == "xml":
                         if mode in json_docs:
@@ -659,7 +776,7 @@ def run(rep, tier, seed, replay=None):
             except (ValueError, StopIteration, UnicodeDecodeError):
                 rep.divergences.append((dc[:2000], got[:300], text[:300].decode("utf-8", "replace"), "the model's JSON reader does not read the document the CLI printed; " + desc[:300]))
                 continue
-            if not same_values(value, expected_value):
+            if not holds(value, expected_value):
                 rep.oracle_failures.append(("cli-json-unfaithful:model-reader", "the values the model's reader finds in the document differ from the library's response", desc, ""))
             rid = f"r{len(reprint)}"
             reprint.append((f"{rid} json-print {style} {got}", text, desc))
@@ -680,7 +797,7 @@ def run(rep, tier, seed, replay=None):
         want = model.get(xid, "")
         rep.count("xml-compared")
         want_b = bytes.fromhex(want) if re.fullmatch(r"(?:[0-9a-f]{2})*", want) else None
-        if want_b is None or canon_rules(want_b) != canon_rules(got):
+        if want_b is None or canon_xml(want_b) != canon_xml(got):
             rep.divergences.append((xc[:2000], bytes.fromhex(want).decode("utf-8", "replace")[:600] if re.fullmatch(r"[0-9a-f]*", want) else want,
                                     got.decode("utf-8", "replace")[:600], "CLI XML differs from the model's rendering of the same JSON value; " + desc[:300]))
         # second opinion where XML 1.0 and 1.1 agree: parse with expat
